@@ -50,6 +50,7 @@ class Case:
         self.qtimeout = qtimeout or (10000 if self.tier == "quick" else 60000)
         self._witness_cache = {}
         self._found_keys = set()
+        self.xcheck = {"done": 0, "limit": 3 if self.tier == "quick" else 12}
         CTX.hard_reset()
         CTX.timeout = self.qtimeout
         install.install()
@@ -94,6 +95,14 @@ class Case:
         if res == "unsat":
             w = self.witness(list(assumptions))
             o["witness"] = w
+            # a sample of the discharged obligations is re-decided by a second solver (cvc5); a definite disagreement is a harness error
+            if self.xcheck["done"] < self.xcheck["limit"] and backend != "syntactic":
+                self.xcheck["done"] += 1
+                r2 = CTX.cross_check(q)
+                self.xcheck[r2] = self.xcheck.get(r2, 0) + 1
+                o["cvc5"] = r2
+                if r2 == "sat":
+                    self.vacuous.append(f"solver disagreement on obligation {name}: z3 {backend} says unsat, cvc5 says sat")
             if w == "unsat":
                 o["note"] = "antecedent unsatisfiable (infeasible path) - not counted as non-trivial"
         if res == "sat":
@@ -356,6 +365,7 @@ class Case:
             "validated": self.validated,
             "coverage": {k: sorted(v) for k, v in CTX.coverage.items()},
             "stats": CTX.stats.as_dict(),
+            "xcheck": dict(self.xcheck),
         }
 
 
